@@ -19,7 +19,7 @@
                       with room for Len never fails for lack of room. *)
 From Sdns Require Import Common.Base Gen.C15 C15.Model C15.Proofs_bits C15.Proofs_select C15.Proofs_buf
                          C15.Proofs_pack C15.Proofs_clone C15.Proofs_refute C15.Concrete C15.Proofs_concrete
-                         C15.Hybrid C15.Proofs_hybrid.
+                         C15.Hybrid C15.Proofs_hybrid C15.Run C15.Proofs_history.
 
 (* ---- translator ties: constants re-read from pack.go ---- *)
 
@@ -396,3 +396,64 @@ Theorem rdata_plan_ok_is_satisfiable :
   rdata_plan_ok unit skip4_plan (fun _ => 4%nat) /\ rdata_plan_ok body steps_plan body_len.
 Proof. exact (conj skip4_plan_ok steps_plan_ok). Qed.
 Print Assumptions rdata_plan_ok_is_satisfiable.
+
+(* ---- pool histories: handled, declined and ABANDONED packs ---- *)
+
+(* A pooled state is what any sequence of earlier TryPack calls left: packs that were handled,
+   packs declined before a state was borrowed, and packs abandoned part-way — packInto wrote the
+   header, the questions and k records into the pooled buffer, then met a record the library
+   refuses; the state goes back with its buffer as written ([run_history] folds Model.try_pack,
+   whose result state is [release (state_after st0 w c)] on every path).  After any two histories
+   from any two states within the invariant the next pack gives the same bytes and verdict. *)
+Theorem history_noninterference :
+  forall (Name Body CMap : Type) (name_zero : Name) (cm_empty : CMap) (cm_len : CMap -> N)
+         (pack_name : Name -> buf -> nat -> option CMap -> bool -> option (nat * buf * option CMap))
+         (pack_rr : rrhdr Name -> Body -> buf -> nat -> option CMap -> bool -> option (nat * nat * buf * option CMap))
+         (q_len : Name -> nat) (rr_len : Name -> Body -> nat),
+  in_place_name Name CMap pack_name -> in_place_rr Name Body CMap pack_rr ->
+  frame_name Name CMap pack_name -> frame_rr Name Body CMap pack_rr ->
+  same_success_name Name CMap pack_name -> same_success_rr Name Body CMap pack_rr ->
+  len_bounds_name Name CMap pack_name q_len -> len_bounds_rr Name Body CMap pack_rr rr_len ->
+  forall (hist1 hist2 : list (msg Name Body)) (st1 st2 : pstate Name Body CMap) (m : msg Name Body),
+  pool_inv Name Body CMap name_zero cm_empty st1 -> pool_inv Name Body CMap name_zero cm_empty st2 ->
+  tp_bytes Name Body CMap (try_pack Name Body CMap name_zero cm_empty cm_len pack_name pack_rr q_len rr_len
+     (run_history Name Body CMap name_zero cm_empty cm_len pack_name pack_rr q_len rr_len st1 hist1) m) =
+  tp_bytes Name Body CMap (try_pack Name Body CMap name_zero cm_empty cm_len pack_name pack_rr q_len rr_len
+     (run_history Name Body CMap name_zero cm_empty cm_len pack_name pack_rr q_len rr_len st2 hist2) m) /\
+  tp_handled Name Body CMap (try_pack Name Body CMap name_zero cm_empty cm_len pack_name pack_rr q_len rr_len
+     (run_history Name Body CMap name_zero cm_empty cm_len pack_name pack_rr q_len rr_len st1 hist1) m) =
+  tp_handled Name Body CMap (try_pack Name Body CMap name_zero cm_empty cm_len pack_name pack_rr q_len rr_len
+     (run_history Name Body CMap name_zero cm_empty cm_len pack_name pack_rr q_len rr_len st2 hist2) m).
+Proof. exact history_noninterference_l. Qed.
+Print Assumptions history_noninterference.
+
+(* the concrete packers, no premise: after ANY history of concrete messages the bytes are those
+   of any other history (the empty one: a state fresh from the pool's New) ... *)
+Theorem concrete_history_noninterference : forall hist1 hist2 st1 st2 m,
+  pool_inv name body dict [] [] st1 -> pool_inv name body dict [] [] st2 ->
+  tp_bytes name body dict (try_pack_c (run_history_c st1 hist1) m) = tp_bytes name body dict (try_pack_c (run_history_c st2 hist2) m) /\
+  tp_handled name body dict (try_pack_c (run_history_c st1 hist1) m) = tp_handled name body dict (try_pack_c (run_history_c st2 hist2) m).
+Proof. exact concrete_history_noninterference_l. Qed.
+Print Assumptions concrete_history_noninterference.
+
+(* ... and they are the library's Pack of the message *)
+Theorem concrete_history_then_libpack : forall hist st m bytes, pool_inv name body dict [] [] st ->
+  tp_bytes name body dict (try_pack_c (run_history_c st hist) m) = Some bytes -> exists m', lib_pack_c m = (LOk bytes, m').
+Proof. exact concrete_history_then_libpack_l. Qed.
+Print Assumptions concrete_history_then_libpack.
+
+(* the hypothesis class is not empty and the scrub at acquire is what it rests on: a computed
+   history with an abandoned pack leaves 'Z' octets at offset 25 of the pooled buffer; the next
+   message has an A record whose four rdata octets (25..28) the library skips; the packer without
+   the scrub (what seeded changes C15-8 / C15-9 amount to after an abandoned pack) hands out 'Z'
+   there, the packer as it is hands out 0 — the library's octet *)
+Theorem abandoned_pack_needs_the_scrub :
+  let st := run_history_c dirty_state [w_abandoned] in
+  tp_handled name body dict (try_pack_c dirty_state w_abandoned) = false /\
+  nth 25 (ps_buf name body dict st) 0%N = 90%N /\
+  option_map (fun b => nth 25 b 0%N)
+    (tp_bytes name body dict (try_pack_unscrubbed name body dict [] [] cm_len_c pack_name_c pack_rr_c q_len_c rr_len_c st w_hole)) = Some 90%N /\
+  option_map (fun b => nth 25 b 0%N) (tp_bytes name body dict (try_pack_c st w_hole)) = Some 0%N /\
+  option_map (fun b => nth 25 b 0%N) (match fst (lib_pack_c w_hole) with LOk b => Some b | _ => None end) = Some 0%N.
+Proof. exact abandoned_pack_witness. Qed.
+Print Assumptions abandoned_pack_needs_the_scrub.
